@@ -65,6 +65,17 @@ func init() {
 				}
 				poolCase(c, p.name, vals)
 			}
+			// a full pool, then values that are already in it (must be found, not rejected) and a new one
+			if p.name != "register" && p.name != "function" && p.name != "native" {
+				for _, again := range []int{1, p.max / 2, p.max} {
+					vals := make([]int64, 0, p.max+3)
+					for i := 1; i <= p.max; i++ {
+						vals = append(vals, int64(i))
+					}
+					vals = append(vals, int64(again), int64(again), int64(p.max+1))
+					poolCase(c, p.name, vals)
+				}
+			}
 			reps := 30
 			if c.Thorough() {
 				reps = 300
@@ -147,6 +158,19 @@ func init() {
 	})
 }
 
+// own[family] = (words naming the family's own resource in the limit message, number of
+// units of that resource the generated program may use beyond n)
+var own = map[string]struct {
+	words string
+	slack int
+}{
+	"int-registers": {"int registers", 8}, "string-registers": {"string registers", 8},
+	"string-constants": {"string values", 0}, "string-constants-reused": {"string values", 0},
+	"int-constants": {"integer values", 2}, "float-constants": {"floating-point values", 2},
+	"functions": {"Scriggo functions", 1}, "native-functions": {"native functions", 3},
+	"types": {"types count", 16}, "struct-fields": {"field indexes", 1},
+}
+
 type family struct {
 	name  string
 	limit int
@@ -190,6 +214,22 @@ var families = []family{
 		b.WriteString("package main\nimport \"t\"\nfunc main() {\n\tn := 0\n")
 		want := 0
 		for i := 1; i <= n; i++ {
+			fmt.Fprintf(&b, "\t{ n += len(t.Id(\"c%d\")) }\n", i)
+			want += 1 + len(fmt.Sprint(i))
+		}
+		b.WriteString("\tt.P(n)\n}\n")
+		return b.String(), fmt.Sprint(want)
+	}},
+	{"string-constants-reused", 256, func(n int) (string, string) {
+		var b strings.Builder
+		b.WriteString("package main\nimport \"t\"\nfunc main() {\n\tn := 0\n")
+		want := 0
+		for i := 1; i <= n; i++ {
+			fmt.Fprintf(&b, "\t{ n += len(t.Id(\"c%d\")) }\n", i)
+			want += 1 + len(fmt.Sprint(i))
+		}
+		// every constant once more: no new pool entry is needed
+		for i := 1; i <= n; i += 7 {
 			fmt.Fprintf(&b, "\t{ n += len(t.Id(\"c%d\")) }\n", i)
 			want += 1 + len(fmt.Sprint(i))
 		}
@@ -320,6 +360,12 @@ func checkProgram(c *Ctx, f family, n int) {
 			msg := be.Error()
 			if i := strings.LastIndex(msg, ": "); i >= 0 {
 				msg = msg[i+2:]
+			}
+			if o, ok := own[f.name]; ok && strings.Contains(msg, o.words) && n+o.slack <= f.limit {
+				// the program needs at most n+slack of this resource, which is within the limit
+				det["error"] = be.Error()
+				c.Fail("limit-error-within-limit", det)
+				return
 			}
 			c.Count("limit-error: " + msg)
 			c.Count("nontrivial")
